@@ -234,12 +234,18 @@ def run_dup(case, res):
 
 def run_outcancel(case, res):
     form = case["form"]
-    for n, k_done, running in [(n, k, rn) for n in (1, 2, 5) for k in range(0, n) for rn in ("none", "all", "odd")]:
+    combos = [(n, k, rn, None) for n in (1, 2, 5) for k in range(0, n) for rn in ("none", "all", "odd")]
+    # one input was cancelled before the function was called (the output comes out cancelled): the others are still asked
+    combos += [(n, 0, "none", pc) for n in (2, 5) for pc in (0, n // 2, n - 1)]
+    for n, k_done, running, pre_cancelled in combos:
         if True:
             begin("rt")
             ctx = Ctx()
             try:
                 ins = [SpyFuture("in%d" % i) for i in range(n)]
+                if pre_cancelled is not None:
+                    ins[pre_cancelled].cancel()
+                    del ins[pre_cancelled].cancel_calls[:]
                 # inputs whose work has started (cancel() may be refused by them) are pending inputs all the same
                 for i, f in enumerate(ins):
                     if running == "all" or (running == "odd" and i % 2 == 1):
@@ -250,13 +256,16 @@ def run_outcancel(case, res):
                     complete(ins[i], "V", i, excs)
                 r = out.cancel()
                 res.execs += 1
-                label = "f_%s n=%d, %d done, running inputs: %s, output.cancel() -> %r" % (form, n, k_done, running, r)
+                label = "f_%s n=%d, %d done, running inputs: %s%s, output.cancel() -> %r" % (
+                    form, n, k_done, running, ", input %d cancelled beforehand" % pre_cancelled if pre_cancelled is not None else "", r)
                 for i in range(k_done, n):
+                    if i == pre_cancelled:
+                        continue
                     if not ins[i].cancel_calls:
                         res.violation("output-cancel-not-fanned-out/%s" % form, "%s: pending input %d received no cancel()" % (label, i))
                 if r and not out.cancelled():
                     res.violation("cancel-true-not-cancelled/%s" % form, label)
-                res.key("outcancel", form, n, k_done, running)
+                res.key("outcancel", form, n, k_done, running, pre_cancelled)
             finally:
                 end(ctx)
 
